@@ -35,7 +35,7 @@ Hypothesis expand_render : forall f env d,
    nested and embedded structs incl. optional and pointer ones, optional / optional=dep /
    default / range / options on every field; no "string" option, no options= on float fields)
    and every document representable in all three formats whose float literals sit only where
-   their text cannot matter (not: integral at an integer position = F8a; not at all at a
+   their text cannot matter (not: integral AND within the kind's range at an integer position = F8a; not at all at a
    string / bool slice-or-map element = F8c), YAML, TOML and JSON give the same verdict and,
    on success, deeply equal values. *)
 Theorem format_independent : forall T d,
@@ -421,3 +421,13 @@ Example ex_history :
     [(true, DMap (DMcons "dsn" (DStr "$C17_A") DMnil)); (false, DMap (DMcons "dsn" (DStr "$C17_A") DMnil))]
   = [Ok (VStruct [VStr "secret"]); Ok (VStruct [VStr "$C17_A"])].
 Proof. vm_compute. reflexivity. Qed.
+
+(* the F8a exclusion is about integral float literals that FIT the integer kind only: one that does not fit is
+   inside the family ([float_positions_ok], [leaves_ok]) and every format rejects it; one that fits is outside *)
+Example ex_float_out_of_range_inside :
+  let T := FCons "a" None (TPrim (KInt W8)) FNil in
+  let d := DMap (DMcons "a" (DFloat "256.0") DMnil) in
+  fam_fields T = true /\ leaves_ok rf_go d = true /\ float_positions_ok T d = true /\
+  (forall f, load_doc rf_go T f d = Err EConv) /\
+  float_positions_ok T (DMap (DMcons "a" (DFloat "127.0") DMnil)) = false.
+Proof. vm_compute. repeat split. intro f; destruct f; reflexivity. Qed.
